@@ -40,6 +40,8 @@ def shards(tier, seed):
                     for f in NONTERM:
                         out.append({"id": "d%d-rw%d-l%s-%s" % (detect, rw, {False: 0, True: 1}.get(link, link), f), "detect": detect, "rw": rw, "link": link, "L": L, "first": f})
         out.append({"id": "facade-d%d" % detect, "facade": True, "detect": detect, "L": 4 if tier == "quick" else 6})
+    # a process without standard input (a daemon, a cron job): the device node is then opened on descriptor 0
+    out.append({"id": "d1-rw0-l0-no-stdin", "detect": True, "rw": False, "link": False, "L": 3 if tier == "quick" else 4, "first": None, "no_stdin": True})
     out.append({"id": "iscsi", "iscsi": True})
     out.append({"id": "two-users", "two_users": True})
     out.append({"id": "forked", "forked": True})
@@ -605,7 +607,21 @@ def run(shard, ctx):
         return run_iscsi(ctx)
     if shard.get("two_users"):
         return run_two_users(ctx)
+    if shard.get("no_stdin"):
+        try:
+            os.close(0)
+        except OSError:
+            pass
     w = World()
+    if shard.get("no_stdin"):
+        from vmon.sim import devnode as _dn
+
+        probe = _dn.new_node()
+        with open(probe, "rb") as fh:
+            if fh.fileno() != 0:
+                ctx.inconclusive_because("descriptor 0 is not free in this process")
+                return
+        ctx.count("shards_run_without_standard_input")
     if shard.get("facade"):
         for n in range(0, shard["L"] + 1):
             for tup in itertools.product("EFeRA", repeat=n):
